@@ -211,7 +211,11 @@ func emitCase(u *unitCase, o *obs, t *tables) string {
 		sb.WriteString("(PCharset " + hk.CoqStr(t.ParseVal) + ") ")
 	}
 	sb.WriteString(hk.CoqPair(hk.CoqStr(t.LookupIn), coqOptName(t.LookupOut)) + " ")
-	sb.WriteString(hk.CoqOpt(t.FindHas, hk.CoqPair(hk.CoqN(uint64(len(t.FindIn))), coqOptName(t.FindOut))) + "\n    ")
+	var bl []string
+	for _, x := range t.BomLookups {
+		bl = append(bl, hk.CoqPair(hk.CoqStr(x[0]), coqOptName(x[1])))
+	}
+	sb.WriteString(hk.CoqOpt(t.FindHas, hk.CoqN(uint64(len(t.FindIn)))) + " " + hk.CoqList(bl) + " " + coqOptName(t.Prescan) + "\n    ")
 	var st []string
 	for _, n := range sortedKeys(t.Stream) {
 		st = append(st, hk.CoqPair(hk.CoqStr(n), coqBytes(t.Stream[n])))
@@ -298,7 +302,22 @@ func (w *world) eval(u *unitCase, toCoq bool) (string, obs) {
 	}
 	var o obs
 	if u.Kind == "e2e" {
-		o = driveE2E(u)
+		segs := u.Chunks
+		for attempt := 0; ; attempt++ {
+			u.Chunks = segs
+			o = driveE2E(u)
+			env := strings.HasPrefix(o.Fatal, "round trip failed") || strings.HasPrefix(o.Fatal, "request failed") || strings.HasPrefix(o.Fatal, "hang")
+			if !env {
+				break
+			}
+			if attempt == 2 {
+				// the local origin / loopback network did not cooperate (loaded machine): not a statement
+				// about the decoder - the same documents are driven at transport level anyway
+				w.r.Notes = append(w.r.Notes, "e2e exchange skipped after 3 attempts ("+u.Stack+"): "+o.Fatal)
+				w.r.Count("e2e:skipped-environment")
+				return "skipped", o
+			}
+		}
 		if o.Fatal == "" && !bytes.Equal(bytes.Join(o.NetSeen, nil), u.Doc.Body) {
 			o.Fatal = "transport delivered other bytes than the origin served (not a C15 matter)"
 		}
